@@ -519,3 +519,106 @@ def g_groups(F, rng, tier):
     for k, r in enumerate(out):
         r["id"] = k + 1
     return out
+
+
+# ---------------------------------------------------------------- C12 operands
+
+M64 = (1 << 64) - 1
+
+
+def vec64(limbs_):
+    return [core.limbs(x) for x in limbs_]
+
+
+def rand_vec(rng, n, kind=None):
+    kind = kind or rng.choice(["ones", "highbit", "sparse", "random", "small", "pow5"])
+    if n == 0:
+        return []
+    if kind == "ones":
+        v = [M64] * n
+    elif kind == "highbit":
+        v = [0] * (n - 1) + [1 << 63]
+    elif kind == "sparse":
+        v = [rng.choice([0, 0, 1, M64, 1 << 32]) for _ in range(n)]
+    elif kind == "small":
+        v = [rng.randrange(0, 4) for _ in range(n)]
+    elif kind == "pow5":
+        x = 5 ** rng.randrange(1, 27 * n + 1)
+        v = [(x >> (64 * k)) & M64 for k in range(n)]
+    else:
+        v = [rng.getrandbits(64) for _ in range(n)]
+    if v[-1] == 0:
+        v[-1] = rng.choice([1, M64, 1 << 63, rng.getrandbits(64) | 1])
+    return v
+
+
+def g_bigint(rng, tier):
+    q = tier == "quick"
+    out = []
+
+    def add(op, x, y=None, n=0, tag=None):
+        out.append({"op": op, "x": vec64(x), "y": vec64(y or []), "n": n, "tag": tag or op})
+
+    lens = [0, 1, 2, 3, 5, 30, 31, 32, 60, 61, 62]
+    scal = [0, 1, 2, 1 << 32, M64, 5 ** 27, 10 ** 19]
+    for n in lens:
+        for _ in range(1 if q else 6):
+            x = rand_vec(rng, n)
+            for s in (rng.sample(scal, 3) if q else scal) + [rng.getrandbits(64)]:
+                add("small_add", x, [s])
+                add("small_mul", x, [s])
+            add("normalize", x + [0] * rng.choice([0, 1, 2]) if n + 2 <= 62 else x)
+            add("hi64", x)
+            add("bit_length", x)
+            y = rand_vec(rng, rng.choice(lens))
+            add("compare", x, y)
+            add("compare", x, list(x))
+            if n:
+                x2 = list(x)
+                x2[rng.randrange(n)] ^= 1 << rng.randrange(64)
+                if x2[-1]:
+                    add("compare", x, x2)
+    for s in scal + [rng.getrandbits(64) for _ in range(3)]:
+        add("from_u64", [], [s])
+    # additions with offsets, up to and beyond the capacity
+    for _ in range(40 if q else 600):
+        nx = rng.choice(lens)
+        ny = rng.choice([1, 2, 5, 30, 31, 61, 62])
+        st = rng.choice([0, 1, 2, 30, 31, 57, 60, 61])
+        add("large_add_from", rand_vec(rng, nx), rand_vec(rng, ny), st)
+    add("large_add_from", [M64] * 62, [1], 0, "large_add_from:carry-out")
+    add("large_add_from", [M64] * 61, [1], 0, "large_add_from:carry-push")
+    add("large_add_from", [M64] * 30, [M64] * 30, 0)
+    # multiplications: products within, at and one limb beyond the capacity
+    for (nx, ny) in [(1, 1), (1, 5), (5, 1), (2, 2), (5, 5), (10, 10), (31, 31), (30, 32), (31, 32), (32, 31), (57, 5), (58, 5), (5, 57),
+                     (5, 58), (61, 1), (62, 1), (61, 2), (60, 2), (20, 42), (20, 43), (3, 59), (3, 60)]:
+        for kind in (["ones"] if q else ["ones", "random", "highbit", "small", "sparse"]):
+            add("long_mul", rand_vec(rng, nx, kind), rand_vec(rng, ny, kind))
+            add("large_mul", rand_vec(rng, nx, kind), rand_vec(rng, ny, kind))
+        add("long_mul", rand_vec(rng, nx, "small"), rand_vec(rng, ny, "highbit"))
+    large5 = [(5 ** 135 >> (64 * k)) & M64 for k in range(5)]
+    add("large_mul", [1], large5, 0, "large_mul:5^135")
+    add("large_mul", [M64] * 57, large5, 0, "large_mul:5^135")
+    add("large_mul", [M64] * 58, large5, 0, "large_mul:5^135")
+    # powers of five / two / ten up to overflow
+    for e in [0, 1, 2, 26, 27, 28, 54, 134, 135, 136, 161, 162, 163, 269, 270, 271, 405, 1111, 1500, 1700, 1708, 1709, 1710, 1800, 3000]:
+        for x in ([[1]] if q else [[1], [3], [M64], [1, 1]]):
+            add("pow5", x, None, e)
+        add("bigint_pow5", [7], None, e)
+    for e in [0, 1, 63, 64, 65, 127, 128, 1000, 3900, 3966, 3967, 3968, 3969, 4031, 4032, 4100]:
+        add("shl", [1], None, e)
+        add("shl", [M64], None, e)
+        add("bigint_pow2", [1, 1], None, e)
+        add("shl", rand_vec(rng, 30), None, e)
+    for nb in [1, 7, 31, 32, 33, 63]:
+        for n in (1, 2, 30, 61, 62):
+            add("shl_bits", rand_vec(rng, n), None, nb)
+    for nl in [1, 2, 30, 31, 32, 61, 62, 63]:
+        for n in (1, 2, 30, 31, 32, 61, 62):
+            add("shl_limbs", rand_vec(rng, n), None, nl)
+    for e in [0, 1, 19, 27, 100, 300, 308, 400, 768, 1000, 1100, 1193, 1194, 1195, 1200]:
+        add("bigint_pow10", [1], None, e)
+        add("bigint_pow10", [12345678901234567890], None, e)
+    for k, r in enumerate(out):
+        r["id"] = k + 1
+    return out
